@@ -22,7 +22,7 @@ from ref import docspec
 
 PROPERTY = "C03"
 LEVEL = "model_checking"
-RULE = ("explicit enumeration of document constructions: root variant x wrapper chain (each wrapper from a 20-entry menu) "
+RULE = ("explicit enumeration of document constructions: root variant x wrapper chain (each wrapper from a 21-entry menu) "
         "x leaf (31 shape variants) inside, with probe leaves before and after the wrapped subtree, x configurations "
         "(reify, ppi, caller size, caller transform); model state = the reference renderer's state (CTM, viewport size, "
         "use stack) at each element; a transition = one element start; every rendered shape is compared.  Non-trivial: "
@@ -50,6 +50,9 @@ ROOTS = [
     ("size-vb-none", 'width="300" height="100" viewBox="-5 -5 30 20" preserveAspectRatio="none"'),
     # attributes that establish nothing on this element and must not leak to descendants that establish a viewport
     ("size-par-novb", 'width="200" height="100" preserveAspectRatio="xMaxYMax slice"'),
+    # a viewport scale that is not a short decimal (7/3), with no translation: the transform must not pass through a
+    # representation of a few significant digits
+    ("size-vb-third", 'width="700" height="700" viewBox="0 0 300 300"'),
 ]
 LEAVES = [
     ("rect", '<rect id="{id}" x="1" y="2" width="3" height="4"/>'),
@@ -100,6 +103,7 @@ WRAPPERS = [
     ("svg-vb-none", '<svg x="-3" y="4" width="40" height="10" viewBox="5 5 20 20" preserveAspectRatio="none">', '</svg>'),
     ("svg-vb-slice", '<svg width="40" height="10" viewBox="0 0 20 20" preserveAspectRatio="xMaxYMin slice">', '</svg>'),
     ("svg-bare", '<svg>', '</svg>'),
+    ("svg-vb-third", '<svg width="100" height="100" viewBox="0 0 30 30">', '</svg>'),
     # a viewport of zero width: nothing inside is rendered, and nothing of it (its size!) may survive for the siblings
     ("svg-zero", '<svg x="1" y="1" width="0" height="10" viewBox="0 0 5 5">', '</svg>'),
     # preserveAspectRatio none with exactly one axis at scale 1
